@@ -188,33 +188,29 @@ def applyGate1 (free : String → Option Rat) (vals : Nat → Option Val) (c : C
       | .error e => .error e
       | .ok call => .ok [call]
 
-def applyGates (free : String → Option Rat) (vals : Nat → Option Val) : List Cmd → Except Err (List Call)
-  | [] => .ok []
-  | c :: rest =>
-    match applyGate1 free vals c with
-    | .error e => .error e
-    | .ok t1 =>
-      match applyGates free vals rest with
-      | .error e => .error e
-      | .ok t2 => .ok (t1 ++ t2)
-
-/-- what `MZgate.apply` (repaired code) applies for a daggered gate: `self.decompose(reg)`, i.e. the
-reversed products of `_decompose` with flipped flags -/
-def mzDaggerSeq (pin pex : Par) (a b : Nat) : List Cmd :=
-  [{ cls := "BSgate", pars := [.num ⟨0, 1/4⟩, .num ⟨0, 1/2⟩], regs := [a, b], dagger := true },
-   { cls := "Rgate", pars := [pin], regs := [a], dagger := true },
-   { cls := "BSgate", pars := [.num ⟨0, 1/4⟩, .num ⟨0, 1/2⟩], regs := [a, b], dagger := true },
-   { cls := "Rgate", pars := [pex], regs := [a], dagger := true }]
+/-- `MZgate.apply` / `MZgate._apply` (repaired code): the internal phase is not an additive first
+parameter, so `phi_in = 0` is not skipped, and the daggered gate is applied through the inverted
+factors `BS†, R(-phi_in), BS†, R(-phi_ex)` (both phases are evaluated first) -/
+def mzCalls (free : String → Option Rat) (vals : Nat → Option Val) (dagger : Bool) (pin pex : Par) (a b : Nat) :
+    Except Err (List Call) :=
+  match evalPars vals free [pin, pex] with
+  | .error e => .error e
+  | .ok [x, y] =>
+    if dagger then
+      let bs : Call := { name := "beamsplitter", args := [[⟨0, -1/4⟩], [⟨0, 1/2⟩]], modes := [a, b] }
+      .ok [bs, { name := "rotation", args := [x.map Num.neg], modes := [a] }, bs,
+           { name := "rotation", args := [y.map Num.neg], modes := [a] }]
+    else .ok [{ name := "mzgate", args := [x, y], modes := [a, b] }]
+  | .ok _ => .error .unmodelled
 
 /-- `cmd.op.apply(cmd.reg, backend)` for one command; returns the new state and the calls made -/
 def applyCmd (free : String → Option Rat) (outc : Nat → List Rat) (st : RunSt) (c : Cmd) :
     Except Err (RunSt × List Call) :=
   match c.kind with
   | .gate =>
-    match c.cls == "MZgate" && c.dagger, c.pars, c.regs with
+    match c.cls == "MZgate", c.pars, c.regs with
     | true, [pin, pex], [a, b] =>
-      -- MZgate.apply: the inverse interferometer is applied element by element
-      match applyGates free st.vals (mzDaggerSeq pin pex a b) with
+      match mzCalls free st.vals c.dagger pin pex a b with
       | .error e => .error e
       | .ok t => .ok (st, t)
     | _, _, _ =>
